@@ -99,6 +99,8 @@ def guarded(prop, res, fn):
     import core
     try:
         fn(res)
+    except core.HarnessError:
+        raise
     except Exception as e:  # noqa: BLE001
         tb = traceback.extract_tb(e.__traceback__)
         in_impl = any(os.path.realpath(f.filename).startswith(os.path.realpath(core.REPO) + os.sep) for f in tb)
